@@ -285,8 +285,8 @@ mutant("c10-hit-no-refresh", "C10", "_lrucache.py",
        "            self.__cache.move_to_end(key, last=True)\n            self.__hits += 1\n",
        "            self.__hits += 1\n", rule="R10.2")
 mutant("c10-clear-keeps-hits", "C10", "_lrucache.py",
-       "    def cache_clear(self) -> None:\n        self.__hits = 0\n        self.__misses = 0\n        self.__cache.clear()\n\n    def cache_discard(self, *args: Any, **kwargs: Any) -> None:\n        self.__cache.pop(CallKey.from_call(args, kwargs, typed=self.__typed), None)\n\n\nclass CachedLRUAsyncCallable",
-       "    def cache_clear(self) -> None:\n        self.__misses = 0\n        self.__cache.clear()\n\n    def cache_discard(self, *args: Any, **kwargs: Any) -> None:\n        self.__cache.pop(CallKey.from_call(args, kwargs, typed=self.__typed), None)\n\n\nclass CachedLRUAsyncCallable",
+       "    def cache_clear(self) -> None:\n        self.__hits = 0\n        self.__misses = 0\n        self.__cache.clear()\n\n    def cache_discard(self, /, *args: Any, **kwargs: Any) -> None:\n        self.__cache.pop(CallKey.from_call(args, kwargs, typed=self.__typed), None)\n\n\nclass CachedLRUAsyncCallable",
+       "    def cache_clear(self) -> None:\n        self.__misses = 0\n        self.__cache.clear()\n\n    def cache_discard(self, /, *args: Any, **kwargs: Any) -> None:\n        self.__cache.pop(CallKey.from_call(args, kwargs, typed=self.__typed), None)\n\n\nclass CachedLRUAsyncCallable",
        rule="R10.3", unit="_lrucache.MemoizedLRUAsyncCallable.cache_clear")
 mutant("c10-info-swapped", "C10", "_lrucache.py",
        "return CacheInfo(self.__hits, self.__misses, None, len(self.__cache))",
@@ -299,8 +299,8 @@ mutant("c10-bare-default-256", "C10", "_lrucache.py",
 mutant("c10-zero-is-bounded", "C10", "_lrucache.py",
        "        elif maxsize == 0:\n", "        elif maxsize < 0:\n", rule="R10.4")
 mutant("c10-discard-untyped-key", "C10", "_lrucache.py",
-       "    def cache_discard(self, *args: Any, **kwargs: Any) -> None:\n        self.__cache.pop(CallKey.from_call(args, kwargs, typed=self.__typed), None)\n\n\nclass CachedLRUAsyncCallable",
-       "    def cache_discard(self, *args: Any, **kwargs: Any) -> None:\n        self.__cache.pop(CallKey.from_call(args, kwargs, typed=False), None)\n\n\nclass CachedLRUAsyncCallable",
+       "    def cache_discard(self, /, *args: Any, **kwargs: Any) -> None:\n        self.__cache.pop(CallKey.from_call(args, kwargs, typed=self.__typed), None)\n\n\nclass CachedLRUAsyncCallable",
+       "    def cache_discard(self, /, *args: Any, **kwargs: Any) -> None:\n        self.__cache.pop(CallKey.from_call(args, kwargs, typed=False), None)\n\n\nclass CachedLRUAsyncCallable",
        rule="R10.5")
 mutant("c10-bound-discard-forgets-self", "C10", "_lrucache.py",
        "return self._lru.cache_discard(self.__self__, *args, **kwargs)", "return self._lru.cache_discard(*args, **kwargs)",
@@ -355,9 +355,16 @@ mutant("c14-pop-all-copies", "C14", "contextlib.py",
 mutant("c14-pop-all-shares", "C14", "contextlib.py",
        "        new_stack._exit_callbacks, self._exit_callbacks = self._exit_callbacks, deque()\n",
        "        new_stack._exit_callbacks = self._exit_callbacks\n", rule="R14.6")
-neutral("c14-unwind-swap-then-iterate", ["C14", "C06", "C17", "C18"], "contextlib.py",
-        "        while self._exit_callbacks:\n            callback = self._exit_callbacks.pop()\n            try:\n",
-        "        callbacks, self._exit_callbacks = self._exit_callbacks, deque()\n        for callback in reversed(callbacks):\n            try:\n")
+# (this one was in the corpus as a *neutral* refactoring until round 9: an independent seed showed that it is not - an exit
+#  registered by an exit while the stack unwinds lands in the fresh container and never runs; R14.12 decides it)
+mutant("c14-unwind-swap-then-iterate", "C14", "contextlib.py",
+       "        while self._exit_callbacks:\n            callback = self._exit_callbacks.pop()\n            try:\n",
+       "        callbacks, self._exit_callbacks = self._exit_callbacks, deque()\n        for callback in reversed(callbacks):\n            try:\n",
+       rule="R14.12")
+mutant("c18-unwind-swap-then-iterate", "C18", "contextlib.py",
+       "        while self._exit_callbacks:\n            callback = self._exit_callbacks.pop()\n            try:\n",
+       "        callbacks, self._exit_callbacks = self._exit_callbacks, deque()\n        for callback in reversed(callbacks):\n            try:\n",
+       rule="R18.4")
 
 mutant("c01-ziplongest-retires-aliased-slots", "C01", "itertools.py",
        "                    remaining -= 1\n                    if not remaining:\n                        return\n                    async_iters[index] = fill_iter\n",
@@ -1010,3 +1017,15 @@ mutant("c18-scopediter-swallows-cancel", "C18", "_core.py",
 mutant("c18-anext-catches-base", "C18", "builtins.py",
        "        return await iterator.__anext__()\n    except StopAsyncIteration:\n",
        "        return await iterator.__anext__()\n    except BaseException:\n", rule="R18.5")
+
+# F17 / F18 reverted: a keyword argument meant for the user's callable collides with a parameter of the forwarding wrapper
+mutant("c14-callback-keyword-collides", "C14", "contextlib.py",
+       "    def callback(self, callback: C, /, *args: Any, **kwargs: Any) -> C:\n",
+       "    def callback(self, callback: C, *args: Any, **kwargs: Any) -> C:\n", rule="R14.13", unit="contextlib.ExitStack.callback")
+mutant("c10-bound-discard-self-by-keyword", "C10", "_lrucache.py",
+       "    def cache_discard(self, /, *args: Any, **kwargs: Any) -> None:\n        return self._lru.cache_discard(self.__self__, *args, **kwargs)\n",
+       "    def cache_discard(self, *args: Any, **kwargs: Any) -> None:\n        return self._lru.cache_discard(self.__self__, *args, **kwargs)\n",
+       rule="R10.9")
+mutant("c03-awaitify-call-self-by-keyword", "C03", "_core.py",
+       "    def __call__(self, /, *args: Any, **kwargs: Any) -> Awaitable[T]:\n",
+       "    def __call__(self, *args: Any, **kwargs: Any) -> Awaitable[T]:\n", rule="R03.13")
